@@ -259,7 +259,7 @@ func ruleStackRec(w *World, r *Report) {
 					continue
 				}
 				if ex, ok := n.(*ssa.Extract); ok && ex.Index == 0 {
-					if call, ok := ex.Tuple.(*ssa.Call); ok && call.Call.StaticCallee() != nil && call.Call.StaticCallee().Name() == "parentNode" && call.Call.Args[1] == rc.i {
+					if call, ok := ex.Tuple.(*ssa.Call); ok && call.Call.StaticCallee() != nil && nm(call.Call.StaticCallee()) == "parentNode" && call.Call.Args[1] == rc.i {
 						par = true
 					}
 				}
@@ -357,7 +357,7 @@ func ruleStackRec(w *World, r *Report) {
 					continue
 				}
 				if ex, ok := v.(*ssa.Extract); ok && ex.Index == 1 {
-					if call, ok := ex.Tuple.(*ssa.Call); ok && call.Call.StaticCallee() != nil && call.Call.StaticCallee().Name() == "parentNode" {
+					if call, ok := ex.Tuple.(*ssa.Call); ok && call.Call.StaticCallee() != nil && nm(call.Call.StaticCallee()) == "parentNode" {
 						if lf, ok := linearise(call.Call.Args[1], iLeaf, 0); ok && lf.equal(mkLin("I", 1, "", -1)) {
 							jump = e
 						}
@@ -621,7 +621,7 @@ func ruleScFlags(w *World, r *Report) {
 			return 0, false
 		}
 		call, ok := ex.Tuple.(*ssa.Call)
-		if !ok || call.Call.StaticCallee() == nil || call.Call.StaticCallee().Name() != "parentNode" || call.Call.Args[1] != i {
+		if !ok || call.Call.StaticCallee() == nil || nm(call.Call.StaticCallee()) != "parentNode" || call.Call.Args[1] != i {
 			return 0, false
 		}
 		return ex.Index, true
@@ -677,7 +677,7 @@ func ruleScFlags(w *World, r *Report) {
 		}
 		if call, ok := fc.Cond.(*ssa.Call); ok && call.Call.StaticCallee() != nil && len(call.Call.Args) == 1 {
 			if idx, okp := parentCallOf(call.Call.Args[0], i); okp && idx == 0 {
-				switch call.Call.StaticCallee().Name() {
+				switch nm(call.Call.StaticCallee()) {
 				case "isAndOpNode":
 					if fc.Truth {
 						return "parentand"
@@ -911,7 +911,7 @@ func ruleScClimb(w *World, r *Report) {
 				return nil, false
 			}
 			c, ok := ex.Tuple.(*ssa.Call)
-			if !ok || c.Call.StaticCallee() == nil || c.Call.StaticCallee().Name() != "parentNode" {
+			if !ok || c.Call.StaticCallee() == nil || nm(c.Call.StaticCallee()) != "parentNode" {
 				return nil, false
 			}
 			if c.Call.Args[1] != i && c.Call.Args[1] != ssa.Value(phi) {
@@ -1140,7 +1140,7 @@ func ruleFastLayout(w *World, r *Report) {
 		callsParent := func(f *ssa.Function) bool {
 			found := false
 			EachInstr(f, func(in ssa.Instruction) {
-				if c, ok := in.(*ssa.Call); ok && c.Call.StaticCallee() != nil && c.Call.StaticCallee().Name() == "parentNode" && len(f.Params) == 2 && c.Call.Args[1] == ssa.Value(f.Params[1]) {
+				if c, ok := in.(*ssa.Call); ok && c.Call.StaticCallee() != nil && nm(c.Call.StaticCallee()) == "parentNode" && len(f.Params) == 2 && c.Call.Args[1] == ssa.Value(f.Params[1]) {
 					found = true
 				}
 			})
@@ -1155,7 +1155,7 @@ func ruleFastLayout(w *World, r *Report) {
 			}
 		})
 		for _, an := range cands {
-			if len(an.Params) == 2 && an.Signature.Results().Len() == 1 && an.Name() != "parentNode" && callsParent(an) {
+			if len(an.Params) == 2 && an.Signature.Results().Len() == 1 && nm(an) != "parentNode" && callsParent(an) {
 				if bt, ok := an.Signature.Results().At(0).Type().Underlying().(*types.Basic); ok && bt.Kind() == types.Bool {
 					lc = an
 				}
@@ -1180,7 +1180,7 @@ func ruleFastLayout(w *World, r *Report) {
 			var other ssa.Value
 			for _, side := range [][2]ssa.Value{{bo.X, bo.Y}, {bo.Y, bo.X}} {
 				if ex, ok := side[0].(*ssa.Extract); ok && ex.Index == 1 {
-					if c, ok := ex.Tuple.(*ssa.Call); ok && c.Call.StaticCallee() != nil && c.Call.StaticCallee().Name() == "parentNode" && c.Call.Args[1] == ssa.Value(idx) {
+					if c, ok := ex.Tuple.(*ssa.Call); ok && c.Call.StaticCallee() != nil && nm(c.Call.StaticCallee()) == "parentNode" && c.Call.Args[1] == ssa.Value(idx) {
 						other = side[1]
 					}
 				}
